@@ -706,7 +706,6 @@ pub fn panic_plans(thorough: bool) -> Vec<Plan> {
 
 pub fn plans(prop: &str, thorough: bool) -> Vec<Plan> {
     match prop {
-        "C16" => panic_plans(thorough),
         "C01" => acct_plans("C01", thorough),
         "C15" => acct_plans("C15", thorough),
         "C02" => solv_plans(thorough),
